@@ -1298,10 +1298,35 @@ func (b *beacon) ReindexExpiration(treasures []treasure.Treasure) {
 	// ascending here because callers of SelectExpiredForPatch use the
 	// ASC beacon (oldest expired first); the matching DESC beacon does
 	// not feed expired-shift / expired-patch flows.
-	sort.Slice(b.treasuresByOrder, func(k, l int) bool {
-		return b.treasuresByOrder[k].GetExpirationTime() < b.treasuresByOrder[l].GetExpirationTime()
-	})
+	b.sortByTimeLocked(treasure.Treasure.GetExpirationTime, false)
 	b.sortOrder = SortByExpirationTimeAsc
+}
+
+// sortByTimeLocked orders treasuresByOrder by a time attribute that is read ONCE per
+// record. The caller holds b.mu, but records are written under their own guard, not
+// under the beacon lock: a comparator that reads the live records can see an attribute
+// change half way through the sort, and a sort whose comparator contradicts itself
+// leaves the whole list in no particular order - for good, because nothing sorts it
+// again until the next insert. With the values fixed up front the order is consistent;
+// the record that was being written keeps its old place until its own save moves it.
+func (b *beacon) sortByTimeLocked(attribute func(treasure.Treasure) int64, descending bool) {
+	type item struct {
+		value int64
+		t     treasure.Treasure
+	}
+	items := make([]item, len(b.treasuresByOrder))
+	for i, t := range b.treasuresByOrder {
+		items[i] = item{value: attribute(t), t: t}
+	}
+	sort.SliceStable(items, func(i, j int) bool {
+		if descending {
+			return items[i].value > items[j].value
+		}
+		return items[i].value < items[j].value
+	})
+	for i := range items {
+		b.treasuresByOrder[i] = items[i].t
+	}
 }
 
 // CloneOrderedTreasures returns the clone of all the orderedTreasures in the beacon
@@ -1666,9 +1691,7 @@ func (b *beacon) SortByCreationTimeAsc() error {
 	}
 
 	b.sortOrder = SortByCreatedAtAsc
-	sort.Slice(b.treasuresByOrder, func(k, l int) bool {
-		return b.treasuresByOrder[k].GetCreatedAt() < b.treasuresByOrder[l].GetCreatedAt()
-	})
+	b.sortByTimeLocked(treasure.Treasure.GetCreatedAt, false)
 
 	return nil
 
@@ -1684,9 +1707,7 @@ func (b *beacon) SortByCreationTimeDesc() error {
 	if !b.isOrdered {
 		return errors.New("the beacon is not ordered")
 	}
-	sort.Slice(b.treasuresByOrder, func(k, l int) bool {
-		return b.treasuresByOrder[k].GetCreatedAt() > b.treasuresByOrder[l].GetCreatedAt()
-	})
+	b.sortByTimeLocked(treasure.Treasure.GetCreatedAt, true)
 	return nil
 }
 
@@ -1726,9 +1747,7 @@ func (b *beacon) SortByExpirationTimeAsc() error {
 	}
 
 	b.sortOrder = SortByExpirationTimeAsc
-	sort.Slice(b.treasuresByOrder, func(k, l int) bool {
-		return b.treasuresByOrder[k].GetExpirationTime() < b.treasuresByOrder[l].GetExpirationTime()
-	})
+	b.sortByTimeLocked(treasure.Treasure.GetExpirationTime, false)
 	return nil
 }
 
@@ -1739,9 +1758,7 @@ func (b *beacon) SortByExpirationTimeDesc() error {
 		return errors.New("the beacon is not ordered")
 	}
 	b.sortOrder = SortByExpirationTimeDesc
-	sort.Slice(b.treasuresByOrder, func(k, l int) bool {
-		return b.treasuresByOrder[k].GetExpirationTime() > b.treasuresByOrder[l].GetExpirationTime()
-	})
+	b.sortByTimeLocked(treasure.Treasure.GetExpirationTime, true)
 	return nil
 }
 func (b *beacon) SortByUpdateTimeAsc() error {
@@ -1751,9 +1768,7 @@ func (b *beacon) SortByUpdateTimeAsc() error {
 		return errors.New("the beacon is not ordered")
 	}
 	b.sortOrder = SortByModifiedAtAsc
-	sort.Slice(b.treasuresByOrder, func(k, l int) bool {
-		return b.treasuresByOrder[k].GetModifiedAt() < b.treasuresByOrder[l].GetModifiedAt()
-	})
+	b.sortByTimeLocked(treasure.Treasure.GetModifiedAt, false)
 	return nil
 }
 func (b *beacon) SortByUpdateTimeDesc() error {
@@ -1763,9 +1778,7 @@ func (b *beacon) SortByUpdateTimeDesc() error {
 		return errors.New("the beacon is not ordered")
 	}
 	b.sortOrder = SortByModifiedAtDesc
-	sort.Slice(b.treasuresByOrder, func(k, l int) bool {
-		return b.treasuresByOrder[k].GetModifiedAt() > b.treasuresByOrder[l].GetModifiedAt()
-	})
+	b.sortByTimeLocked(treasure.Treasure.GetModifiedAt, true)
 	return nil
 }
 
